@@ -93,10 +93,13 @@ class ImmutableKnotVector(tuple):
         all_knots = list(self.knots) + list(other.knots)
         all_knots = ImmutableKnotVector.__get_unique(all_knots)
         all_mults = [0] * len(all_knots)
+        degree = max(self.degree, other.degree)
         for vector in [self, other]:
+            # Written in the common degree, every knot keeps its continuity
+            raised = degree - vector.degree
             for knot in vector:
                 index = all_knots.index(knot)
-                mult = vector.mult(knot)
+                mult = vector.mult(knot) + raised
                 if mult > all_mults[index]:
                     all_mults[index] = mult
         final_vector = []
